@@ -100,6 +100,11 @@ func RegisterTypeMigration(previousPkgPath, previousTypeName string, newType err
 	if f, ok := backwardRegistry[newKey]; ok {
 		panic(fmt.Errorf("migration to type %q already registered (from %q)", newKey, f))
 	}
+	// If the previous name is itself the result of an already registered
+	// migration, the type is identified by its original name.
+	if origKey, ok := backwardRegistry[prevKey]; ok {
+		prevKey = origKey
+	}
 	backwardRegistry[newKey] = prevKey
 	// If any other key was registered as a migration from newKey,
 	// we'll forward those as well.
